@@ -190,6 +190,17 @@ def run(tier: str, seed: int, t0: float) -> int:
                 if steps.pstep(st)["type"] == "attr" and st.attr == "undeclared":
                     continue
                 invert_events(b, rd, di, st)
+            # node-mark steps naming a mark of the same type as one the node carries, with other attribute values
+            from prosemirror.transform import AddNodeMarkStep, RemoveNodeMarkStep
+            marked = []
+            rd.descendants(lambda node, pos, parent, index: marked.append((pos, node)) if (node.marks and not node.is_text) else None)
+            for pos, node in marked[:6]:
+                for m in node.marks:
+                    if m.attrs:
+                        other = m.type.create({k: (v + "2" if isinstance(v, str) else v) for k, v in m.attrs.items()})
+                        if not other.eq(m):
+                            invert_events(b, rd, di, RemoveNodeMarkStep(pos, other))
+                            invert_events(b, rd, di, AddNodeMarkStep(pos, other))
         jobs.append(("Trace_Doc", b, f"T invert[{name}]"))
     # ---- T: the Transform operations of the repository's own test-suite, each as a one-operation session
     from .. import suitetrace
